@@ -3015,3 +3015,29 @@ pub(crate) fn verif_frame(width: u16, height: u16, ybuf: Vec<u8>, ubuf: Vec<u8>,
         ..Default::default()
     }
 }
+
+#[cfg(image_webp_verif)]
+pub(crate) fn verif_read_tree_with_probs(
+    d: &mut ArithmeticDecoder,
+    which: u8,
+    probs: &[u8],
+) -> super::vp8_arithmetic_decoder::BitResult<i8> {
+    fn nodes(tree: &[i8], probs: &[u8]) -> Vec<TreeNode> {
+        (0..tree.len() / 2)
+            .map(|i| TreeNode {
+                left: TreeNode::prepare_branch(tree[2 * i]),
+                right: TreeNode::prepare_branch(tree[2 * i + 1]),
+                prob: probs.get(i).copied().unwrap_or(128),
+                index: i as u8,
+            })
+            .collect()
+    }
+    let n = match which {
+        0 => nodes(&KEYFRAME_YMODE_TREE, probs),
+        1 => nodes(&KEYFRAME_UV_MODE_TREE, probs),
+        2 => nodes(&SEGMENT_ID_TREE, probs),
+        3 => nodes(&KEYFRAME_BPRED_MODE_TREE, probs),
+        _ => nodes(&DCT_TOKEN_TREE, probs),
+    };
+    d.read_with_tree_with_first_node(&n, n[0])
+}
